@@ -7,13 +7,12 @@
     value of the two-signature distance; [C05_array_pairs] ties it to the generated [jaccarddist].
     Values are binary32 objects, so every equality below is bit-for-bit.
 
-    Not proved: the square form of jaccarddist_pairwise (statement kept as
-    [C05_pairwise_square_statement] in Proofs/C05Pairwise.v); OpenMP interleavings below
-    iteration granularity cannot be expressed in the model at all (explored by the harness). *)
+    OpenMP interleavings below iteration granularity cannot be expressed in the model at all
+    (explored by the harness). *)
 From Coq Require Import ZArith List Bool Permutation.
 From GV Require Import Base.CSem Base.F32 Gen.MetricPyx Spec.Jaccard Spec.JaccardF Spec.C05
   Model.MetricPy Model.C05 Proofs.C05Sched Proofs.C05Array Proofs.C05Chunks Proofs.C05Matrix
-  Proofs.C05Pairwise.
+  Proofs.C05Pairwise Proofs.C05Square.
 Import ListNotations.
 Open Scope Z_scope.
 
@@ -103,15 +102,14 @@ Theorem C05_matrix_asfound_refuted :
 Proof. exact C05_matrix_asfound_refuted_l. Qed.
 Print Assumptions C05_matrix_asfound_refuted.
 
-(** jaccarddist_pairwise, condensed form only (the square form is not proved): the result is
-    [dist_condensed sel] ... *)
-Theorem C05_pairwise_partial : forall fx c d ss indices out sel,
+(** jaccarddist_pairwise, condensed form: the result is [dist_condensed sel] ... *)
+Theorem C05_pairwise_flat : forall fx c d ss indices out sel,
   dtype_ok d = true -> Forall sorted ss -> wrap_ok fx c ss = true ->
   selected ss indices = Some sel -> buf1_wf out = true ->
   jd_pairwise_flat fx c d ss indices out =
     if out_ok out [num_pairs (mv_len sel)] then POk (dist_condensed sel) else PErr PValueError.
 Proof. exact C05_pairwise_flat_l. Qed.
-Print Assumptions C05_pairwise_partial.
+Print Assumptions C05_pairwise_flat.
 
 (** ... whose cell at offset n*i - i(i+1)/2 + (j-i-1) is the distance of the pair (i, j), i < j *)
 Theorem C05_condensed_offset : forall sel i j si sj,
@@ -125,3 +123,18 @@ Print Assumptions C05_condensed_offset.
 Theorem C05_dist_symmetric : forall a b, sorted a -> sorted b -> dist a b = dist b a.
 Proof. exact dist_sym. Qed.
 Print Assumptions C05_dist_symmetric.
+
+(** jaccarddist_pairwise, square form (fill_diagonal, row slices, mirror copy), for every container,
+    index selection and caller buffer: n rows, +0 on the diagonal, d(s_i, s_j) elsewhere -- hence
+    symmetric by C05_dist_symmetric *)
+Theorem C05_pairwise_square : forall fx c d ss indices out sel,
+  dtype_ok d = true -> Forall sorted ss -> wrap_ok fx c ss = true ->
+  selected ss indices = Some sel -> buf2_wf out = true ->
+  out_ok out [mv_len sel; mv_len sel] = true ->
+  exists rows, jd_pairwise_square fx c d ss indices out = POk rows /\
+    length rows = length sel /\
+    forall i j si sj, nth_error sel i = Some si -> nth_error sel j = Some sj ->
+      exists row, nth_error rows i = Some row /\
+        nth_error row j = Some (if Nat.eqb i j then f32_zero else dist si sj).
+Proof. exact C05Square.C05_pairwise_square. Qed.
+Print Assumptions C05_pairwise_square.
